@@ -3,6 +3,7 @@ import ElvisVerif.Spec.Rfc9293
 import ElvisVerif.Lemmas.TcbPath
 import ElvisVerif.Lemmas.TcbIrs
 import ElvisVerif.Lemmas.TcbSeq
+import ElvisVerif.Lemmas.TcbClose
 import ElvisVerif.Props.C17
 /-!
 # C03 — TCP connections open, synchronise and close as RFC 9293 prescribes
@@ -508,6 +509,151 @@ example : ∃ s s' : Tcb, ∃ seg : Segment, s.segmentArrives seg = .ok (s', .Ok
   refine ⟨{ localPort := 0xcafe#16, remotePort := 0xdead#16, mtu := 1500#16, initiation := .Open,
             state := .SynSent, snd := { iss := 1000#32, una := 1000#32, nxt := 1001#32 }, rcv := {} },
           _, forge .A 18 5000 1001 65535 [], rfl, ⟨fun _ => rfl, fun _ => by decide⟩, by decide, by decide⟩
+
+/-! ## the FIN follows the data; release -/
+
+/-- **FIN after data, sender side** (full strength for `close` and `segments`, the only two
+    places a FIN is formed).  (1) `close` with text still queued forms no FIN and changes nothing
+    but the state.  (2) Whenever `close` or `segments` puts a FIN on the retransmission queue that
+    was not there before, it carries no text, its sequence number is the last one used
+    (`SND.NXT − 1` afterwards) and no text is left queued: every byte handed to `send` before
+    `close` has been given a sequence number below the FIN's.  (Before the repair of F-C03-2 the
+    FIN was numbered at once: `c03_regression_close_after_text`.)
+
+    `_partial`: that the PEER delivers every sequence number below its `RCV.NXT` to its
+    application in order, so that it holds all the data when its state shows FIN received, is
+    C01's stream theorem (not restated here); the native oracle `eof-before-data` evaluates the
+    whole clause on the real code whenever an endpoint first shows FIN received. -/
+theorem c03_fin_after_data_partial :
+    (∀ (s s' : Tcb) (r : CloseResult), s.close = .ok (s', r) → s.outgoing.text ≠ [] →
+      s'.outgoing.retransmit = s.outgoing.retransmit ∧ s'.snd.nxt = s.snd.nxt ∧
+        s'.outgoing.text = s.outgoing.text) ∧
+    (∀ (s s' : Tcb) (r : CloseResult), s.close = .ok (s', r) → ∀ t ∈ s'.outgoing.retransmit, t.segment.hdr.ctl.fin = true →
+      t ∈ s.outgoing.retransmit ∨
+        (t.segment.text = [] ∧ t.segment.hdr.seq + 1 = s'.snd.nxt ∧ s'.outgoing.text = [])) ∧
+    (∀ (s s' : Tcb) (out : List Segment), s.segments = .ok (s', out) → ∀ t ∈ s'.outgoing.retransmit, t.segment.hdr.ctl.fin = true →
+      (∃ t0 ∈ s.outgoing.retransmit, t0.segment = t.segment) ∨
+        (t.segment.text = [] ∧ t.segment.hdr.seq + 1 = s'.snd.nxt ∧ s'.outgoing.text = [])) := by
+  have cl : ∀ (s0 s' : Tcb), s0.queueFin = .ok s' →
+      (s0.outgoing.text ≠ [] → s'.outgoing.retransmit = s0.outgoing.retransmit ∧ s'.snd.nxt = s0.snd.nxt ∧
+        s'.outgoing.text = s0.outgoing.text) ∧
+      (∀ t ∈ s'.outgoing.retransmit, t.segment.hdr.ctl.fin = true → t ∈ s0.outgoing.retransmit ∨
+        (t.segment.text = [] ∧ t.segment.hdr.seq + 1 = s'.snd.nxt ∧ s'.outgoing.text = [])) := by
+    intro s0 s' e
+    rcases queueFin_forms _ _ e with ⟨_, rfl⟩ | ⟨ht, hn, ht', hr, hs, _⟩
+    · exact ⟨fun _ => ⟨rfl, rfl, rfl⟩, fun t h _ => Or.inl h⟩
+    · refine ⟨fun h => absurd ht h, fun t h _ => ?_⟩
+      rw [hr] at h
+      rcases List.mem_append.1 h with h | h
+      · exact Or.inl h
+      · simp only [List.mem_singleton] at h
+        subst h
+        exact Or.inr ⟨rfl, by rw [hn]; exact congrArg (· + 1) hs, ht'⟩
+  refine ⟨?_, ?_, fun s s' out e => segments_fin_last s s' out e⟩
+  · intro s s' r e hne
+    unfold close at e
+    split at e
+    all_goals first
+      | (cases e; exact ⟨rfl, rfl, rfl⟩)
+      | (split at e
+         · simp at e
+         · rename_i t h1
+           cases e
+           exact (cl _ _ h1).1 hne)
+  · intro s s' r e t ht hfin
+    unfold close at e
+    split at e
+    all_goals first
+      | (cases e; exact Or.inl ht)
+      | (split at e
+         · simp at e
+         · rename_i t1 h1
+           cases e
+           exact (cl _ _ h1).2 t ht hfin)
+
+/-- the total time advanced by a list of calls -/
+def ticks : List Call → Nat
+  | [] => 0
+  | .advanceTime ms :: cs => ms + ticks cs
+  | _ :: cs => ticks cs
+
+/-- no segment arrives, and the application does not `abort` -/
+def quietCall : Call → Prop
+  | .segmentArrives _ => False
+  | .abort => False
+  | _ => True
+
+/-- **Release** (building blocks, each at full strength for a single endpoint):
+
+    1. LAST-ACK with its FIN formed and outstanding: an acceptable segment whose ACK acknowledges
+       everything (`SEG.ACK = SND.NXT`) makes `process_segment` return `FinalizeClose` — the
+       TCB is deleted by the final ACK.
+    2. TIME-WAIT: a segment with neither FIN nor RST leaves the state and the running 2·MSL
+       timer alone (before the repair of F-C03-1 every ACK restarted it).
+    3. TIME-WAIT left alone (any sequence of `advance_time`, `send`, `receive`, `close`, `segments`)
+       is deleted as soon as more virtual time than is left on the timer — at most 2·MSL — has
+       passed.
+
+    `_partial`: the closed two-endpoint statement "once both sides closed and delivery is fair,
+    both TCBs are deleted within 2·MSL + RTO" is a liveness property of the whole system; it is
+    evaluated on the real code by the release oracle of the harness after every schedule
+    (`not-released …`, `no-quiescence`, `not-silent`), not proved. -/
+theorem c03_release_partial :
+    (∀ (s : Tcb) (segment : Segment), s.state = .LastAck → s.outgoing.text = [] →
+      0 < (s.snd.nxt - s.snd.una).toNat → (s.snd.nxt - s.snd.una).toNat < 2147483648 →
+      s.isSeqOk (BitVec.ofNat 32 segment.text.length) segment.hdr.seq segment.hdr.ctl.syn
+        segment.hdr.ctl.fin = .ok true →
+      segment.hdr.ctl.ack = true → segment.hdr.ack = s.snd.nxt →
+      ∃ s', s.processSegment segment = .ok (s', .FinalizeClose)) ∧
+    (∀ (s : Tcb) (segment : Segment) s' r, s.state = .TimeWait → segment.hdr.ctl.fin = false →
+      segment.hdr.ctl.rst = false → s.processSegment segment = .ok (s', r) →
+      s'.state = .TimeWait ∧ s'.timeouts.timeWait = s.timeouts.timeWait ∧ r.shouldDeleteTcb = false) ∧
+    (∀ (s : Tcb) (tw : Nat) (cs : List Call), Wf s → s.state = .TimeWait →
+      s.timeouts.timeWait = some tw → (∀ c ∈ cs, quietCall c) → tw < ticks cs →
+      Tcb.run (some s) cs = .ok none) := by
+  refine ⟨processSegment_lastAck_release, ?_, ?_⟩
+  · intro s segment s' r hst hfin hrst e
+    obtain ⟨k, hr⟩ := processSegment_timeWait_quiet s segment hst hfin hrst s' r e
+    exact ⟨k.state.trans hst, k.tw, hr⟩
+  · intro s tw cs
+    induction cs generalizing s tw with
+    | nil => intro _ _ _ _ h; simp [ticks] at h
+    | cons c cs ih =>
+      intro hw hst htw hq hsum
+      have hi : HeapIdle s := fun h => by rw [hst] at h; simp at h
+      have hqc := hq c (by simp)
+      have hq' : ∀ c ∈ cs, quietCall c := fun c hc => hq c (by simp [hc])
+      -- a call that keeps state and timer
+      have keep : ∀ s1 : Tcb, c.Valid → s.call c = .ok (some s1) → Keep s s1 → ticks (c :: cs) = ticks cs →
+          Tcb.run (some s) (c :: cs) = .ok none := by
+        intro s1 hv e k ht
+        obtain ⟨r', e', wf'⟩ := c17_total s hw hi c hv
+        rw [e] at e'; cases e'
+        simp only [Tcb.run, e]
+        exact ih s1 tw (wf' s1 rfl).1 (k.state.trans hst) (k.tw.trans htw) hq' (by rw [← ht]; exact hsum)
+      cases c with
+      | segmentArrives seg => exact absurd hqc (by simp [quietCall])
+      | abort => exact absurd hqc (by simp [quietCall])
+      | advanceTime ms =>
+        obtain ⟨hdel, hkeep⟩ := advanceTime_timeWait s ms tw htw
+        by_cases h : tw < ms
+        · obtain ⟨s1, e1⟩ := hdel h
+          simp only [Tcb.run, Tcb.call, e1]
+        · obtain ⟨s1, e1, st1, tw1⟩ := hkeep (by omega)
+          obtain ⟨r', e', wf'⟩ := c17_total s hw hi (.advanceTime ms) trivial
+          simp only [Tcb.call, e1] at e'
+          cases e'
+          simp only [Tcb.run, Tcb.call, e1]
+          exact ih s1 (tw - ms) (wf' s1 rfl).1 (st1.trans hst) tw1 hq'
+            (by simp only [ticks] at hsum; omega)
+      | send bytes => exact keep _ trivial rfl (send_keep s bytes) rfl
+      | receive => exact keep _ trivial rfl (receive_keep s) rfl
+      | close =>
+        have e : s.close = .ok (s, .ConnectionClosing) := by unfold close; rw [hst]
+        exact keep s trivial (by simp only [Tcb.call, e]) (Keep.refl _) rfl
+      | segments =>
+        obtain ⟨s1, out, e1, _, _⟩ := segments_spec s hw
+        exact keep s1 trivial (by simp only [Tcb.call, e1]) (segments_keep s s1 out e1) rfl
 
 end C03
 end Elvis.Tcp
